@@ -29,6 +29,8 @@ __all__ = [
     "Replier",
     "front_stage",
     "FRONT_STAGES",
+    "roundtrips",
+    "nrt_ns",
     "ConstantLatency",
     "ExponentialLatency",
     "Duration",
@@ -49,6 +51,39 @@ HOSTILE_LATS = [0.001, 0.0123456789, 1e-6, 0.000333333, 0.05, 0.1, 0.007, 1e-9, 
 # structural counts (subscribers, backends, replicas, shards, workers, steps ...)
 HOSTILE_COUNTS = [1, 2, 3, 5, 9, 10, 11, 12]
 DEFAULT_LATS = [0.0123456789, 0.003, 0.000333333, 0.05, 0.007, 0.0021, 0.001, 0.02]
+
+
+def roundtrips(ns: int) -> bool:
+    """True when the instant survives ns -> float seconds -> Instant.from_seconds() (which truncates)."""
+    return int(int(ns) / 1e9 * 1e9) >= int(ns)
+
+
+def nrt_ns(start_ns: int, plus_ns: int = 0) -> int:
+    """Smallest n >= start_ns such that the instant n + plus_ns does NOT round-trip through float seconds.
+
+    About 1.7 % of all nanosecond instants lose one nanosecond in `Instant.from_seconds(t.to_seconds())`
+    (1.001 s -> 1 000 999 999 ns); code that stamps `from_seconds(now.to_seconds() + delay)` is 1 ns in
+    the past there when the delay is zero or below 1 ns.  Scenarios use this to put arrivals (plus_ns=0)
+    or the instants an arrival leads to (plus_ns = a timeout in ns) on such instants deliberately."""
+    # Such instants are clustered: they only occur in the bands [2^j s, 2^j * 1.0737 s) (1.0737 = 2^30 / 1e9),
+    # j any integer (1.0-1.07 s, 2.0-2.15 s, 0.5-0.537 s, 0.125-0.134 s ...), with a density of about 23 %
+    # there and not at all in between: go to the current band, or to the start of the next one.
+    import math
+
+    t = max(16, int(start_ns) + int(plus_ns))
+    j = math.floor(math.log2(t / 1e9))
+    for _ in range(80):
+        lo = math.ceil((2.0**j) * 1e9)
+        hi = int((2.0**j) * 1073741824.0)
+        m = max(t, lo)
+        while m < hi:
+            if not roundtrips(m):
+                return max(int(start_ns), m - int(plus_ns))
+            m += 1
+            if m - max(t, lo) > 5000:
+                break
+        j += 1
+    return int(start_ns)
 
 
 def seed_all(seed: int) -> None:
@@ -91,6 +126,12 @@ class P:
             t += rng.choice([0, 1, 999, 1_234_567, 10_000_019]) + spread_ns
             out.append(t)
         return out
+
+    def arrivals_before(self, delay_s: float, default_n: int = 8) -> list[int]:
+        """The arrivals, each moved forward (by < 1 us typically) so that `arrival + delay_s` - e.g. the
+        instant a timeout armed at the arrival fires - does not round-trip through float seconds."""
+        plus = int(float(delay_s) * 1e9)
+        return [nrt_ns(a, plus) for a in self.arrivals(default_n)]
 
     def n(self, default: int = 8) -> int:
         a = self.d.get("arrivals_ns")
@@ -155,13 +196,23 @@ def hostile_params(rng: random.Random, tier: str = "quick") -> dict:
             arr.append(t)
     k = rng.randrange(3, 7)
     lats = [max(1e-9, rng.choice(HOSTILE_LATS) * rng.choice([1, 1, 1, 3, 0.1])) for _ in range(k)]
+    lats = [float(f"{v:.12g}") for v in lats]
+    snap = rng.choice(["none", "arrival", "arrival", "arrival+lat0"])
+    if snap == "arrival":
+        # every arrival on an instant that does not survive the float-seconds round trip (see nrt_ns)
+        arr = [nrt_ns(a) for a in arr]
+    elif snap == "arrival+lat0":
+        # ... or such that the instant one lats[0] later (a timeout / latency armed at the arrival) is one
+        plus = int(lats[0] * 1e9)
+        if plus < 2_000_000_000:
+            arr = [nrt_ns(a, plus) for a in arr]
     return {
         "arrivals_ns": arr,
-        "lats": [float(f"{v:.12g}") for v in lats],
+        "lats": lats,
         "counts": [rng.choice(HOSTILE_COUNTS) for _ in range(3)],
         "cap": rng.choice([1, 1, 2, 2, 3, 5]),
         "hold": float(f"{rng.choice(HOSTILE_LATS) * rng.choice([1, 2, 10]):.12g}"),
-        "end": rng.choice([5.0, 10.0, 30.0, 60.0]),
+        "end": max(rng.choice([5.0, 10.0, 30.0, 60.0]), float(int(max(arr) / 1e9 * 2) + 2)),
         "x": {"v": rng.randrange(0, 1000)},
     }
 
